@@ -6,10 +6,17 @@ oracle = Python int arithmetic on int(bits, 2) masked to len; algebraic laws ass
 from __future__ import annotations
 
 from .. import core, families
-from ..util import CLASSES, STREAMS, MUTABLE, obs, cb, vkind, mk, snippet
+from ..util import CLASSES, STREAMS, MUTABLE, obs, cb, vkind, mk
+from ..util import snippet as _snippet
 from .c01 import promotable_forms, CB_SRC, build
 
 PROPERTY = 'C16'
+_LSB0 = False
+
+
+def snippet(pre, expr, exp, conv=None):
+    return _snippet(pre, expr, exp, conv=conv, options=(core.get_options()))
+
 VACUITY = dict(need_ok=['and', 'or', 'xor', 'invert', 'lshift', 'rshift', 'iand', 'ior', 'ixor', 'ilshift', 'irshift', 'rand'],
                need_rej=['and', 'or', 'xor', 'invert', 'lshift', 'rshift', 'ilshift', 'irshift', 'iand'], min_outcomes=100)
 
@@ -18,7 +25,7 @@ OPS = {'and': ('&', lambda a, b: a & b), 'or': ('|', lambda a, b: a | b), 'xor':
 
 def describe(tier):
     q = tier == 'quick'
-    return dict(bounds=dict(pairs='all ordered pairs of contents of length <= %d' % (7 if q else 9),
+    return dict(bounds=dict(options_lsb0='False for everything; True for all unary/shift events and all pairs of length <= 4', pairs='all ordered pairs of contents of length <= %d' % (7 if q else 9),
                             edge_lengths=[63, 64, 65, 127, 128, 129] + ([] if q else [255, 256, 257, 1023, 1024, 1025, 2000, 2001]),
                             left_classes=list(CLASSES), right='4 classes + promotable forms (str, list, tuple, generator, bitarray, bytes...)',
                             shifts='n in [-2, L+2] U {64, 10**9}', self_operand=True),
@@ -95,6 +102,18 @@ def run_shard(shard, acc):
                 unary(bs, acc, a, full=True)
                 for b in small:
                     binary(bs, acc, a, b, full=(len(a) <= 5 and len(b) <= 5))
+            # the same operators under options.lsb0: whole-value operations, shifts keep their direction relative to the
+            # most significant end, so the model is unchanged (C12 statement); snippets set the option.
+            core.set_options(lsb0=True)
+            try:
+                for a in shard['left']:
+                    unary(bs, acc, a, full=True, lsb0=True)
+                    if len(a) <= 4:
+                        for b in small:
+                            if len(b) <= 4:
+                                binary(bs, acc, a, b, full=False, lsb0=True)
+            finally:
+                core.set_options()
         else:
             L = shard['L']
             pats = families.edge(L, shard['seed'], full=False)
@@ -104,13 +123,13 @@ def run_shard(shard, acc):
                     binary(bs, acc, a, b, full=False)
 
 
-def unary(bs, acc, d, full):
+def unary(bs, acc, d, full, lsb0=False):
     L = len(d)
     shifts = list(dict.fromkeys(list(range(-2, L + 3)) + [64, 10 ** 9])) if full else [-1, 0, 1, 7, 8, 63, 64, 65, L - 1, L, L + 1, 10 ** 9]
     for cls in CLASSES:
         pos = L // 2 if cls in STREAMS else 0
         s = build(bs, cls, d, pos)
-        acc.state((cls, d))
+        acc.state((cls, d, lsb0))
         pre = [f"s = {mk(cls, d, pos)}"]
         exp = wrap(cls, invert_model(d))
         got = obs(lambda: ~s, cb)
@@ -151,7 +170,7 @@ def unary(bs, acc, d, full):
                     sym = '<<=' if left else '>>='
                     if not exc_match(e2, got) or (got[0] == 'exc' and m.bin != d):
                         acc.violation(op, vkind(e2, got) if not exc_match(e2, got) else 'frame', dict(cls=cls, data=d, n=n),
-                                      '\n'.join(["import bitstring", f"s = {mk(cls, d, pos)}", "t = s", "try:", f"    s {sym} {n}",
+                                      '\n'.join(["import bitstring", f"bitstring.options.lsb0 = {lsb0}", f"s = {mk(cls, d, pos)}", "t = s", "try:", f"    s {sym} {n}",
                                                  "except ValueError:", f"    assert {exp[0]!r} == 'exc' and t.bin == {d!r}, t.bin", "else:",
                                                  f"    assert {exp[0]!r} == 'ok' and s is t and s.bin == {exp[1]!r}, s.bin"]), e2, got)
         if s.bin != d or getattr(s, '_pos', 0) != pos:
@@ -160,8 +179,8 @@ def unary(bs, acc, d, full):
     acc.sample(dict(bits=d[:64], events='~s, s << n, s >> n, s <<= n, s >>= n for n in ' + str(shifts[:6]) + '...'))
 
 
-def binary(bs, acc, a, b, full):
-    acc.state(('pair', a, b))
+def binary(bs, acc, a, b, full, lsb0=False):
+    acc.state(('pair', a, b, lsb0))
     for op, (sym, _) in OPS.items():
         m = imodel(op, a, b)
         ok_ = int(m[0] == 'ok')
@@ -204,7 +223,7 @@ def binary(bs, acc, a, b, full):
                 bad = not exc_match(e2, got)
                 if bad or (got[0] == 'exc' and s.bin != a) or t.bin != b:
                     acc.violation('i' + op, vkind(e2, got) if bad else 'frame', dict(lcls=lcls, left=a, rcls=rcls, right=b),
-                                  '\n'.join(["import bitstring", f"s = {mk(lcls, a)}", f"t = {mk(rcls, b)}", "u = s", "try:", f"    s {sym}= t",
+                                  '\n'.join(["import bitstring", f"bitstring.options.lsb0 = {lsb0}", f"s = {mk(lcls, a)}", f"t = {mk(rcls, b)}", "u = s", "try:", f"    s {sym}= t",
                                              "except ValueError:", f"    assert {m[0]!r} == 'exc' and u.bin == {a!r}", "else:",
                                              f"    assert {m[0]!r} == 'ok' and s is u and s.bin == {m[1]!r}, s.bin", f"assert t.bin == {b!r}"]), e2, got)
         # promotable right operands and reflected forms
